@@ -7,8 +7,10 @@ func init() {
 			"(NYCT) every write to an entity in updateTripOrVehicle is dominated by proto.HasExtension(tripDesc, E_NyctTripDescriptor); GetTrack is {no extension -> nil; actual track set -> actual; else scheduled}; direction is NORTH -> 0 otherwise 1 (C02 maps 0/1 to False/True); the start time is formatted HH:MM:SS from capture group 1 of TripIDRegex, which is exactly six leading digits in a pattern that accepts the same ids as the documented NYCT format (compared after parsing), only on a successful match, through integer arithmetic only; assigned trips get a vehicle descriptor whose id is the train id, and the function that puts it on the entity stores that very descriptor without writing to it or handing it to a call that overwrites its fields (proto.Merge into it, Reset, Unmarshal); the value handed to the stale-trip filter is false without the descriptor and GetIsAssigned() on every other path; " +
 			"the M-train fix stores only the stop id, under route == \"M\", len == 4 and membership in the table {M11,M12,M13,M14,M16,M18}, its character table is the involution N<->S with everything else untouched, and it runs exactly when PreserveMTrainPlatformsInBushwick is false; " +
 			"the stale filter's extracted decision table equals the definition (unassigned, and no stops or first-stop departure-else-arrival time zero or strictly before the feed time) and ShouldSkip additionally requires the extension and the option. " +
-			"the parsed origin time is multiplied before it is divided, with the factor 6/10 (nothing is computed from the raw number first); (SCAN) no processing loop is left by a break. Not decided: the exhaustive 000000-599999 arithmetic of the origin-time conversion (numerical; only its integer-ness, source and scaling shape are checked).",
+			"the parsed origin time is multiplied before it is divided, with the factor 6/10 (nothing is computed from the raw number first); (SCAN) no processing loop is left by a break. Not decided: the exhaustive 000000-599999 arithmetic of the origin-time conversion (numerical; only its integer-ness, source and scaling shape are checked). (TID, A3) what the extension writes on the wire entity -- a start time with hours up to 99, the train id as vehicle id -- is accepted and transcribed verbatim by the descriptor parsers.",
 		Rules: []Rule{
+			{Name: "TID", Doc: "the start time the extension writes (hours up to 99) is accepted by the descriptor parser: dropped only when absent or not matching the pattern", MinInstances: 2, Run: func(c *Ctx) { runStartAcceptance(c, "TID") }},
+			{Name: "A3", Doc: "what the extension writes on the wire entity reaches the result as written: trip and vehicle identifier fields are bound to their wire fields verbatim", MinInstances: 35, Run: runWireTable},
 			{Name: "SCAN", Doc: "a loop that does something for each element is not left early (no break out of a processing loop)", MinInstances: 1, Run: func(c *Ctx) { runFullScan(c, c.regionOf(c.anchor("nycttrips:(extension).UpdateTrip")), "SCAN") }},
 			{Name: "NYCT", Doc: "NYCT trips extension clauses", MinInstances: 9, Run: runNyctTrips},
 			{Name: "G1", Doc: "type assertions on extensions justified (shared with C05)", MinInstances: 1, Run: func(c *Ctx) {
